@@ -937,7 +937,7 @@ func (e *Enc) checkExit() error {
 		if fc != nil && fc.Unreach[i] {
 			continue
 		}
-		if e.guard[b].S == "true" {
+		if e.guard[b].S == "true" || isSelectPanicBlock(b) {
 			continue
 		}
 		e.cover(fmt.Sprintf("block%d", i), e.guard[b])
@@ -1091,6 +1091,28 @@ func (e *Enc) onSelect(x *ssa.Select, idx Term) {}
 // callWrites adds the writes of a call inside a loop to ws; returns true when everything may change.
 func (e *Enc) callWrites(li *loopInfo, ci ssa.CallInstruction, ws writeSets) bool {
 	c := ci.Common()
+	// ghost variables assigned by hooks anchored at this call
+	if e.fc != nil && len(e.fc.Hooks) > 0 {
+		if e.ordCache == nil {
+			e.ordCache = e.callOrdinals()
+		}
+		name := e.callName(c)
+		ord := e.ordCache[ci.(ssa.Instruction)]
+		for _, h := range e.fc.Hooks {
+			if h.When == "exit" || h.When == "entry" || !matchCallee(name, h.Callee) || (h.Ordinal >= 0 && h.Ordinal != ord) {
+				continue
+			}
+			for _, st := range h.Stmts {
+				if st.Kind == "assign" {
+					if g, ok := e.prog.cs.Ghosts[st.Target]; ok {
+						if srt, err := ghostSort(g.Type); err == nil {
+							ws.whole("G$"+st.Target, srt)
+						}
+					}
+				}
+			}
+		}
+	}
 	// atomic cells and other builtin receivers: like a store through the receiver
 	if !c.IsInvoke() {
 		if fn, ok := c.Value.(*ssa.Function); ok && strings.HasPrefix(fn.String(), "(*sync/atomic.") {
@@ -1282,4 +1304,21 @@ func (e *Enc) contractModNames(fc *FuncContract, fn *ssa.Function, c *ssa.CallCo
 		}
 	}
 	return names, false
+}
+
+// isSelectPanicBlock: the compiler-generated default of a blocking select ("blocking select matched no case").
+func isSelectPanicBlock(b *ssa.BasicBlock) bool {
+	for _, ins := range b.Instrs {
+		switch x := ins.(type) {
+		case *ssa.DebugRef, *ssa.Panic:
+		case *ssa.MakeInterface:
+			c, ok := x.X.(*ssa.Const)
+			if !ok || c.Value == nil || !strings.Contains(c.Value.ExactString(), "blocking select matched no case") {
+				return false
+			}
+		default:
+			return false
+		}
+	}
+	return true
 }
